@@ -23,7 +23,7 @@ def call_builtin(eng, it, f, args, kwargs, node):
     if name.startswith('exc.'):
         return VExc(name[4:], tuple(args))
     if name == 'len':
-        v = it.concretize(args[0])
+        v = it.concretize(args[0], (VList, VSeq, VConst, VTuple, VKwargs, VQueue))
         if isinstance(v, (VList, VSeq)):
             return it.from_idx(list_len(st, v))
         if isinstance(v, VConst):
@@ -490,6 +490,12 @@ def spec_builtin(eng, it, name, args, kwargs):
     if name == 'no_alias':
         vs = [it.concretize(a) for a in args]
         return VBool(z3.Distinct([v.t for v in vs]) if len(vs) > 1 else z3.BoolVal(True))
+    if name == 'fn':
+        return VFunc(eng.fn_const(args[0].s))
+    if name == 'method':
+        obj = it.concretize(args[0])
+        ci = eng.repo.find_class(obj.cls)
+        return VBound(obj, ci.methods[args[1].s])
     if name == 'steps':
         # steps(d0, delta, d1): d1 is d0 advanced by a whole number (>= 0) of periods delta
         f = eng.ufun('steps', 3, z3.BoolSort(), [z3.RealSort()] * 3)
